@@ -79,6 +79,9 @@ mod trainer;
 #[cfg(feature = "kytea")]
 mod kytea_model;
 
+#[cfg(feature = "verif-hooks")]
+pub mod verif_hooks;
+
 pub use dict_model::WordWeightRecord;
 pub use model::Model;
 pub use predictor::Predictor;
